@@ -21,7 +21,7 @@ namespace Biom.C09
 
 inductive Mode where
   | union | inter
-  deriving Repr, DecidableEq, BEq, Inhabited
+  deriving Repr, DecidableEq, Inhabited
 
 /-- a metadata-merge function on canonical entries (`none` = Python `None`) -/
 abbrev MdFun := Option Md → Option Md → Option Md
@@ -91,8 +91,14 @@ def generalMerge [Add α] [Zero α] (fs fo : MdF) (ms mo : Mode) (a b : Table α
 
 /-! ### fast path -/
 
-/-- `sorted(set(...))` -/
-def sortIds (l : List Id) : List Id := l.mergeSort (fun x y => decide (x ≤ y))
+def insertId (x : Id) : List Id → List Id
+  | [] => [x]
+  | y :: ys => if x ≤ y then x :: y :: ys else y :: insertId x ys
+
+/-- `sorted(...)`: ascending by code points (insertion sort; only "a sorted permutation" matters) -/
+def sortIds : List Id → List Id
+  | [] => []
+  | x :: xs => insertId x (sortIds xs)
 
 /-- the global ID space of an axis: every ID of every operand once, sorted -/
 def globalIds (ts : List (Table α)) (ax : Axis) : List Id :=
